@@ -4,7 +4,7 @@
    the instantiated main theorem ILT_LT_gen are generated into C10_branches.v /
    C10_guard.v / C10_ds.v on every run).  Each theorem restates a lemma of
    coq/theory/{ExpPoly,ILT,ILTCorr}.v so that its statement is visible here. *)
-Require Import LT.FieldSec LT.PolyQ LT.QcI LT.ExpPoly LT.ILT LT.ILTCorr.
+Require Import LT.FieldSec LT.PolyQ LT.QcI LT.ExpPoly LT.ILT LT.ILTResidue LT.ILTCorr.
 Local Open Scope F_scope.
 
 (* ---- signal algebra ---------------------------------------------------------- *)
@@ -104,6 +104,26 @@ Theorem C10_undef_deriv : forall (K : fld) (v : sig K) (n : nat) (s : K), pole_f
 Proof. exact undef_deriv_sound. Qed.
 Theorem C10_undef_int : forall (K : fld) (y v : sig K) (s : K), D y = v -> pole_free s y -> s <> 0 -> Lval s y = Lval s v / s.
 Proof. exact undef_int_sound. Qed.
+
+(* ---- residues by substitution (cover-up), simple and double poles ("residues_partial") ---- *)
+Theorem C10_residue_sub_simple : forall (K : fld) (Bp C : list K) (p : K), peval C p <> 0 ->
+  pdivides (plin p) (psub Bp (pscale (rat_eval (Bp, C) p) C)).
+Proof. exact residue_sub_simple. Qed.
+Theorem C10_residue_sub_simple_value : forall (K : fld) (Bp C : list K) (p : K), peval C p <> 0 ->
+  exists W, forall x, x - p <> 0 -> peval C x <> 0 ->
+    peval Bp x / ((x - p) * peval C x) = rat_eval (Bp, C) p / (x - p) + peval W x / peval C x.
+Proof. exact residue_sub_simple_value. Qed.
+Theorem C10_residue_sub_double : forall (K : fld) (Bp C : list K) (p : K), peval C p <> 0 ->
+  pdivides (plinpow p 2) (psub (psub Bp (pscale (rat_eval (Bp, C) p) C))
+                               (pscale (rat_eval (rdiff (Bp, C)) p / fnat (natfact 1)) (pmul (plin p) C))).
+Proof. exact residue_sub_double. Qed.
+Theorem C10_residue_sub_double_value : forall (K : fld) (Bp C : list K) (p : K), peval C p <> 0 ->
+  exists W, forall x, x - p <> 0 -> peval C x <> 0 ->
+    peval Bp x / (fpow (x - p) 2 * peval C x) =
+      rat_eval (Bp, C) p / fpow (x - p) 2 + (rat_eval (rdiff (Bp, C)) p / fnat (natfact 1)) / (x - p) + peval W x / peval C x.
+Proof. exact residue_sub_double_value. Qed.
+Print Assumptions C10_residue_sub_simple. Print Assumptions C10_residue_sub_simple_value.
+Print Assumptions C10_residue_sub_double. Print Assumptions C10_residue_sub_double_value.
 
 Print Assumptions C10_L_linear. Print Assumptions C10_Linv_L. Print Assumptions C10_L_Linv. Print Assumptions C10_LT_Linv.
 Print Assumptions C10_L_D. Print Assumptions C10_delay. Print Assumptions C10_delayed_inverse.
